@@ -166,9 +166,10 @@ Proof.
   - destruct (t1 =? tkLparen); [apply paren_terms_ok; exact Hpt|rok].
 Qed.
 
-Lemma parse_relation_ok fuel n pt : pt_ok pt -> forall s t, rres_ok (parse_relation fuel n pt s t).
+Lemma parse_relation_ok fuel n : forall s t, rres_ok (parse_relation fuel n s t).
 Proof.
-  intro Hpt. induction fuel as [|f IH]; intros s t; cbn [parse_relation]; [rok|].
+  induction fuel as [|f IH]; intros s t; cbn [parse_relation]; [rok|].
+  pose proof (parse_term_ok f n) as Hpt. set (pt := parse_term f n) in *. cbv zeta.
   destruct (t =? tkIdentifier).
   { destruct (next s) as [t1 s1]. destruct (t1 =? tkIdentifier).
     - destruct (is_kw s1 t1 (str "contains")).
@@ -202,7 +203,7 @@ Proof.
   - destruct (skip_token s2 maybeCR tkComma) as [t1 s3]. destruct (parse_identifiers n s3 t1) as [err s4].
     destruct err; [rok|]. apply parse_identifiers_relation_ok; exact Hpt.
   - destruct (next (rewind s2)) as [t1 s3].
-    pose proof (IH s3 t1) as H. destruct (parse_relation f n pt s3 t1) as [[i e] s4].
+    pose proof (IH s3 t1) as H. destruct (parse_relation f n s3 t1) as [[i e] s4].
     destruct (negb i) eqn:Hi; [unfold rres_ok in *; exact H|].
     destruct (next s4) as [t2 s5]. destruct (negb (t2 =? tkRparen)); rok.
 Qed.
@@ -215,8 +216,8 @@ Proof.
   intro Hpt. induction n as [|n IH]; intros s t; cbn [parse_where_loop].
   - destruct ((t =? tkIf) || is_dml_terminator t); finish.
   - destruct ((t =? tkIf) || is_dml_terminator t); [finish|].
-    pose proof (parse_relation_ok fuel (S n) pt Hpt s t) as H.
-    destruct (parse_relation fuel (S n) pt s t) as [[i e] s1].
+    pose proof (parse_relation_ok fuel (S n) s t) as H.
+    destruct (parse_relation fuel (S n) s t) as [[i e] s1].
     destruct (negb i) eqn:Hi; [unfold rres_ok in H; exact H|].
     destruct (next s1) as [t1 s2]. destruct (skip_token s2 t1 tkAnd) as [t2 s3]. apply IH.
 Qed.
@@ -378,7 +379,7 @@ Qed.
 Theorem unparseable_is_not_idempotent ts : snd (is_idempotent_tokens ts) <> 0 -> fst (is_idempotent_tokens ts) = false.
 Proof.
   unfold is_idempotent_tokens.
-  set (n := S (length ts)). set (pt := parse_term n n).
+  set (n := S (length ts)). set (pt := parse_term (N.to_nat max_nesting_depth) n).
   assert (Hpt : pt_ok pt) by apply parse_term_ok.
   destruct (next (init_lstate ts)) as [t s].
   assert (Hfin : forall r : SRes, sres_ok r ->
